@@ -148,7 +148,7 @@ func stressCarousel(cfg StressCfg, budget time.Duration) (*fail, carouselStats) 
 		time.Sleep(2 * time.Millisecond)
 	}
 	stop.Store(true)
-	hung := !waitBounded(&wg, 10*time.Second)
+	hung := !waitBounded(&wg, hangBound)
 	// late starters of the last groups: give goroutines that were (wrongly) spawned a chance to reach f
 	for i := 0; i < 64; i++ {
 		runtime.Gosched()
@@ -175,7 +175,7 @@ func stressCarousel(cfg StressCfg, budget time.Duration) (*fail, carouselStats) 
 		return &fail{"barrier-stress-panic", params, fmt.Sprintf("real threads (carousel): a Group call panicked: %s", m)}, st
 	}
 	if hung {
-		return &fail{"stress-round-hangs", params, "real threads (carousel): a Do / StopAndWait call did not return within 10 s of real time although every f returns at once"}, st
+		return &fail{"stress-round-hangs", params, "real threads (carousel): a Do / StopAndWait call did not return within 120 s of real time although every f returns at once"}, st
 	}
 	return nil, st
 }
